@@ -187,6 +187,29 @@ def judge(item, options=None, simplify=False, which=("dae", "init")):
     return recs, info
 
 
+def conformance(item):
+    """as-built binding: item comes from an *_asbuilt_* run, item["model"] is what the operational model of the
+    generator predicts (raises / residual rows in veccat order).  Returns (kind, detail):
+      "agree" | "rows-differ" | "raise-differs" | "skipped"     (only ever reported as model drift)"""
+    m = item["model"]
+    exp = item["expect"]
+    if exp["kind"] not in ("rows", "reject") or not all(m["ok"]):
+        return "skipped", ""
+    pts = exp["pts"] if exp["kind"] == "rows" else []
+    o = observe(item["prog"], pts)
+    code_raises = o[0] in ("exc",)
+    if m["raises"] != code_raises:
+        return "raise-differs", "model raises=%s code: %s %s" % (m["raises"], o[0], o[1] if o[0] == "exc" else "")
+    if code_raises or o[0] != "ok":
+        return "agree", ""
+    for p, mrows, (dae, ini) in zip(pts, m["rows"], o[2]):
+        want = [fval(x) for blk in mrows for x in blk]
+        got = list(dae) + list(ini)
+        if len(want) != len(got) or not all(ir_eval.close(a, e) for a, e in zip(got, want)):
+            return "rows-differ", "point %s: model %s code %s" % (p["t"], want[:8], got[:8])
+    return "agree", ""
+
+
 def merge_key(item):
     p = item["prog"]
     return json.dumps([p["comps"], p["funcs"]], sort_keys=True)
